@@ -175,7 +175,7 @@ func iterationLeak(v ssa.Value, loop map[*ssa.BasicBlock]bool, header *ssa.Basic
 			return ""
 		}
 		// a constructor call outside the loop: one object for all iterations
-		name := core.CalleeName(&x.Call)
+		name := core.CalleeName(core.NormCall(&x.Call))
 		short := name
 		if i := strings.LastIndex(short, "."); i >= 0 {
 			short = short[i+1:]
